@@ -5,7 +5,8 @@ CONSTANTS Callers = {c1, c2}
  MaxAtt = 2
  FreshKey = FALSE
  MaxJunk = 2
+ Kinds = {"obj"}
  Dev = {}
-INVARIANTS WireIdsIncrease SeqNoRules OwnResult AcceptedNeverResent SaltPersisted NoStallNotify NoStallDeliver AckedAll
+INVARIANTS WireIdsIncrease SeqNoRules OwnResult TypedVector LoopAlive AcceptedNeverResent SaltPersisted NoStallNotify NoStallDeliver AckedAll
 PROPERTIES AllDone LoopKeepsReading
 VIEW view
